@@ -194,3 +194,44 @@ func elsePresenceAsPrinted(p *Prog, rule string) *RuleResult {
 	r.Floor(1)
 	return r
 }
+
+// ---------------------------------------------------------------------------------------------
+// C16/R14 no-must-compile-on-computed-pattern.
+//
+// regexp.MustCompile panics when the pattern does not compile. A pattern assembled from input text
+// (a package.json "sideEffects" entry, the constant parts of a glob-style dynamic import) can carry
+// bytes the regexp parser rejects — a lone surrogate in a JSON string becomes invalid UTF-8 — and
+// the panic surfaces as an internal error for an ordinary input. Rule: every regexp.MustCompile
+// call in the module has a constant argument; computed patterns go through regexp.Compile.
+func c16NoMustCompileComputed(p *Prog) *RuleResult {
+	r := NewRule("C16/R14 no-must-compile-on-computed-pattern", "regexp.MustCompile is only called with constant patterns (a pattern built from input text may fail to compile, and MustCompile panics)")
+	n := 0
+	seen := map[string]int{}
+	for _, fn := range p.ModuleFuncs() {
+		eachInstr(fn, func(b *ssa.BasicBlock, in ssa.Instruction) {
+			c, ok := in.(*ssa.Call)
+			if !ok || (calleeFullName(c) != "regexp.MustCompile" && calleeFullName(c) != "regexp.MustCompilePOSIX") {
+				return
+			}
+			n++
+			r.Instances++
+			base := FuncName(TopFunc(fn)) + " regexp.MustCompile"
+			seen[base]++
+			key := base
+			if seen[base] > 1 {
+				key = fmt.Sprintf("%s #%d", base, seen[base])
+			}
+			if _, ok := constString(c.Call.Args[0]); ok {
+				r.OK(key, true, "constant pattern")
+			} else {
+				r.Fail(key, p.Pos(c.Pos()), "the pattern is computed ("+ssaExpr(c.Call.Args[0], 0)+"): text taken from the input can make it uncompilable (a lone surrogate in a JSON string is invalid UTF-8), and MustCompile then panics — an internal error instead of a diagnostic")
+			}
+		})
+	}
+	// a module without any MustCompile is fine too; the rule is then trivially true
+	if n == 0 {
+		r.Instances++
+		r.OK("no regexp.MustCompile in the module", true, "")
+	}
+	return r
+}
